@@ -21,7 +21,8 @@ PROP = Prop(
     rule=(
         "lambert_arc: Hypothesis bound orbits (e <= 0.7, any inclination incl. retrograde), start anomaly, transfer angle in "
         "(2,178) U (182,358) deg, time of flight from the independent Kepler oracle (< one period), true short/long sense; both "
-        "solvers. radar_inversion: site, target above the horizon at az/el/range, whole-second epoch incl. second != 0. lambert_iod: "
+        "solvers; arc_grid: the same check on a regular lattice over (e, start anomaly, transfer angle) with seed-dependent offsets "
+        "(8x12x60 quick, 16x24x180 thorough), other elements random. radar_inversion: site, target above the horizon at az/el/range, whole-second epoch incl. second != 0. lambert_iod: "
         "near-circular orbit (e <= 0.01), two noise-free radar observations 5%..39.5% of a period apart from sites under the target, "
         "stored the way the engine stores them. Non-trivial = transfer angle > 180 deg, e > 0.3, or separation > 30% of the period; "
         "distinct by rounded inputs."
@@ -43,6 +44,40 @@ def _arc_cases():
 @PROP.clause("lambert_arc", strategy=_arc_cases, quick=2500, thorough=100000, shards=4)
 def lambert_arc(c, rec):
     """universal-variable and Battin solvers: propagating (r1, v1_returned) for the time of flight arrives at (r2, v2_returned)"""
+    _check_arc(c, rec)
+
+
+@PROP.clause("arc_grid", quick=5760, thorough=69120, shards=16)
+def arc_grid(c, rec):
+    """the same oracle on a regular (eccentricity x start anomaly x transfer angle) lattice, so that thin bands of the domain are hit by construction"""
+    _check_arc(c, rec)
+
+
+@PROP.sweep("arc_grid")
+def arc_grid_cases(ctx):
+    # lattice resolution from the budget: quick 8 x 12 x 60, thorough 16 x 24 x 180; one seed-dependent offset per axis
+    big = ctx["n"] * ctx["nshards"] > 20000
+    ne, nn, nd = (16, 24, 180) if big else (8, 12, 60)
+    rng = np.random.default_rng(ctx["seed"] % 2**32)
+    k = 0
+    for ie in range(ne):
+        e = 0.7 * (ie + float(rng.random())) / ne
+        for i_n in range(nn):
+            nu = TWOPI * (i_n + float(rng.random())) / nn
+            for i_d in range(nd):
+                k += 1
+                if k % ctx["nshards"] != ctx["shard"]:
+                    continue
+                half = nd // 2
+                j = i_d % half
+                lo = math.radians(2) if i_d < half else math.radians(182)
+                dnu = lo + math.radians(176) * (j + float(rng.random())) / half
+                rp = 6378.0 + 200.0 + 30000.0 * float(rng.random()) ** 2
+                yield {"a": rp / (1.0 - e), "e": e, "i": PI * float(rng.random()), "raan": TWOPI * float(rng.random()),
+                       "argp": TWOPI * float(rng.random()), "nu": nu, "dnu": dnu}
+
+
+def _check_arc(c, rec):
     from resonaate.physics.orbit_determination.lambert import lambertBattin, lambertUniversal
 
     a, e, dnu = c["a"], c["e"], c["dnu"]
